@@ -40,6 +40,15 @@ class Substituter(IdentityDagWalker):
     def _push_with_children_to_stack(self, expression: FNode, **kwargs):
         """Add children to the stack."""
 
+        # A key is replaced as a whole (the substitution works top-down): its
+        # sub-expressions must not be visited, otherwise they are rebuilt with
+        # the other substitutions applied, which is wasted work and can raise
+        # an UPTypeError for an expression that is not part of the result.
+        res = kwargs["subs"].get(expression, None)
+        if res is not None:
+            self.memoization[self._get_key(expression, **kwargs)] = res
+            return
+
         # Deal with quantifiers
         if expression.is_exists() or expression.is_forall():
             # 1. We create a new substitution in which we remove the
